@@ -530,8 +530,12 @@ RECS = ["DDM", "EDDM", "LinearFourRates", "STEPD", "ADWIN", "ADWINAccuracy"]
 
 
 def clause_recs(ctx):
+    clause_recs_for(ctx, RECS)
+
+
+def clause_recs_for(ctx, names):
     prog = ctx.prog
-    for cname in RECS:
+    for cname in names:
         # reset clears the recommendation
         tr = ctx.trace(cname, "reset")
         v = tr.final.attrs.get("_retraining_recs")
